@@ -33,7 +33,7 @@ from sim import seams
 def universe():
     base = [
         pc.Int8(), pc.Int16(), pc.Int32(), pc.Int64(), pc.UInt8(), pc.UInt16(), pc.UInt32(), pc.UInt64(),
-        pc.Float32(), pc.Float64(), pc.Decimal(), pc.Decimal(10, 2), pc.Int(), pc.Float(),
+        pc.Float32(), pc.Float64(), pc.Decimal(), pc.Decimal(10, 2), pc.Decimal(38, 1), pc.Decimal(20, 15), pc.Int(), pc.Float(),
         pc.String(), pc.String(10), pc.Enum("a", "b"), pc.Bool(), pc.Date(), pc.Datetime(), pc.Time(),
         pc.Duration(), pc.NullType(), pc.List(pc.Int64()),
     ]  # fmt: skip
@@ -222,7 +222,7 @@ def check_relations(table):
     ops_ = operators()
     out = []
     dec_name = tname(pc.Decimal())
-    sized_float = ["Float32", "Float64", dec_name, "Decimal(10.2)"]
+    sized_float = ["Float32", "Float64", dec_name, "Decimal(10.2)", "Decimal(38.1)", "Decimal(20.15)"]
     for name, rows in table.items():
         op = ops_.get(name)
         for key, (o1, o2) in rows.items():
